@@ -1,6 +1,7 @@
 // C12 — the distributed solve is truthful and rank-consistent for any rank count and row distribution.
 // Lock-step SPMD harness (common/harness_mpi.hpp).
 #include <boost/property_tree/ptree.hpp>
+#include <boost/property_tree/json_parser.hpp>
 #include <amgcl/backend/builtin.hpp>
 #include <amgcl/adapter/crs_tuple.hpp>
 #include <amgcl/value_type/static_matrix.hpp>
@@ -41,6 +42,32 @@ static double cond1_spd(const Csr<double> &A) {
     Eigen::SelfAdjointEigenSolver<Eigen::MatrixXd> es(E, Eigen::EigenvaluesOnly);
     double lo = es.eigenvalues()(0), hi = es.eigenvalues()(A.n - 1);
     return lo > 0 ? hi / lo : 1e300;
+}
+
+// Probe used by the predicate of the listed finding F-mpi-sa-near-zero-filtered-diagonal: replays the coarsening loop of mpi::amg
+// with the distributed smoothed aggregation (default parameters, no repartitioning) and reports - identically on all ranks -
+// whether some prolongation carries an entry of absurd magnitude (a filtered diagonal that is a cancellation residue ~1e-17 is
+// inverted; the next coarse operator then has entries ~1e29 and the coarse direct solver throws on its master rank only, which
+// leaves the other ranks inside collectives).
+static bool mpi_sa_blows_up(amgcl::mpi::communicator comm, const Csr<double> &Al, ptrdiff_t coarse_enough, double &worst) {
+    auto tup = std::make_tuple(static_cast<size_t>(Al.n), Al.ptr, Al.col, Al.val);
+    auto A = std::make_shared<DM>(comm, tup, Al.n);
+    amgcl::mpi::coarsening::smoothed_aggregation<B> C;
+    worst = 0;
+    for (int lev = 0; lev < 30 && A->glob_rows() > coarse_enough; ++lev) {
+        std::shared_ptr<DM> P, R; int empty = 0;
+        try { std::tie(P, R) = C.transfer_operators(*A); } catch (const amgcl::error::empty_level &) { empty = 1; }
+        int any_empty = 0; MPI_Allreduce(&empty, &any_empty, 1, MPI_INT, MPI_MAX, MPI_COMM_WORLD);
+        if (any_empty) break;
+        double mx = 0;
+        for (auto M : {P->local(), P->remote()}) for (size_t q = 0; q < M->nnz; ++q) { double a = std::abs(M->val[q]); if (!(a <= mx)) mx = std::isfinite(a) ? a : 1e300; }
+        double gmx = 0; MPI_Allreduce(&mx, &gmx, 1, MPI_DOUBLE, MPI_MAX, MPI_COMM_WORLD);
+        worst = std::max(worst, gmx);
+        if (gmx > 1e6) return true;
+        if (P->glob_cols() == 0 || P->glob_cols() >= A->glob_rows()) break;
+        A = C.coarse_operator(*A, *P, *R);
+    }
+    return false;
 }
 
 // ------------------------------------------------------------------ full solves through the runtime interface
@@ -87,6 +114,17 @@ static void prop_solve(Tape &t, Ctx &c) {
     typedef amgcl::mpi::make_solver<amgcl::runtime::mpi::preconditioner<B>, amgcl::runtime::mpi::solver::wrapper<B>> Solver;
     // ---- collective part
     Csr<double> Al = strip(A, dom[me], dom[me + 1]);
+    if (!single_level && ci == 0) { // listed finding: decided collectively (all ranks get the same answer) before the solver is built
+        double worst = 0;
+        if (mpi_sa_blows_up(comm, Al, prm.get("precond.coarse_enough", 3000), worst)) {
+            c.label("mpi-sa-prolongation-blow-up"); c.desc << " max|P|=" << worst;
+            if (c.known("F-mpi-sa-near-zero-filtered-diagonal")) return;
+            // exclusion lifted: report the root cause instead of running into the dead-lock it leads to
+            mpi_checked([&]() { VF_REQUIRE(false, "distributed smoothed aggregation on an SPD M-matrix produced a prolongation entry of magnitude " << worst
+                << " (a filtered diagonal that is a cancellation residue is inverted); the coarse operator is then numerically singular, the coarse direct solver throws on its master rank only and the remaining ranks wait in collectives forever (no termination, no convergence)"); });
+            return;
+        }
+    }
     auto tup = std::make_tuple(static_cast<size_t>(Al.n), Al.ptr, Al.col, Al.val);
     std::vector<double> fl(f.begin() + dom[me], f.begin() + dom[me + 1]), xl(Al.n, 0.0);
     size_t iters = 0; double resid = 0;
@@ -95,12 +133,13 @@ static void prop_solve(Tape &t, Ctx &c) {
     try {
         Solver S(comm, tup, prm);
         if (env_flag("VF_C12_TRACE")) { // diagnostic aid (never set by bin/check)
-            if (me == 0) { std::cerr << "TRACE prm: "; for (auto &kv : prm.get_child("precond")) std::cerr << kv.first << "=" << kv.second.data() << " "; std::cerr << "\n" << S.precond() << std::endl; }
+            if (me == 0) { boost::property_tree::write_json(std::cerr, prm); std::cerr << "TRACE prm: "; for (auto &kv : prm.get_child("precond")) std::cerr << kv.first << "=" << kv.second.data() << " "; std::cerr << "\n" << S.precond() << std::endl; }
             std::vector<double> z(Al.n, 0.0); S.precond().apply(fl, z); int bad = 0; for (double v : z) bad += !std::isfinite(v);
             std::cerr << "TRACE rank " << me << ": precond.apply(f) has " << bad << " non-finite of " << z.size() << std::endl;
         }
         std::tie(iters, resid) = S(fl, xl);
-    } catch (const std::exception &e) { threw = true; cerr_ = std::string("exception on this rank: ") + e.what(); }
+    } catch (const std::exception &e) { threw = true; cerr_ = std::string("exception on this rank: ") + e.what(); if (env_flag("VF_C12_TRACE")) std::cerr << "TRACE rank " << me << ": " << cerr_ << std::endl; }
+    if (env_flag("VF_C12_TRACE")) std::cerr << "TRACE rank " << me << " left the solver: iters=" << iters << " resid=" << resid << std::endl;
     // a rank-local exception would leave the others inside a collective: nothing we can do but report it afterwards
     std::vector<cplx> X = gather_vec(xl);
     std::vector<double> all = allgatherv(std::vector<double>{double(iters), resid}, MPI_DOUBLE);
